@@ -80,15 +80,13 @@ func (e *Engine) aeadMethod(a *AeadV, name string, args []any) any {
 		return BytesV{E: sym}
 	case "Open": // Open(dst, nonce, ciphertext, aad)
 		ct := args[2].(BytesV)
-		// the ciphertext handed in is substr(blob, 12, ...) of a Seal output prefixed by its nonce; find a sealed
-		// value whose term occurs in the expression (provenance by term inspection; spike-level)
-		for sym, pv := range sealed {
-			if strings.Contains(ct.E, sym) {
-				cond := SymBool{fmt.Sprintf("(and (= %s %s) (= %s %s) (= %s %s))", a.Key, pv.key, bytesE(args[1]), pv.nonce, bytesE(args[3]), pv.aad)}
-				if e.branch(cond) {
-					return Tuple{BytesV{E: pv.pt}, IfaceV{}}
-				}
-				return Tuple{BytesV{E: `""`, Nil: true}, e.mkErr("cipher: message authentication failed")}
+		// which sealed value (if any) is this ciphertext? decided semantically: the expression handed in is
+		// typically substr(iv ++ sealed, 12, ...), and a truncated or extended ciphertext is a different value
+		if sym, ok := e.resolve(bytesE(ct), keysOf(sealed)); ok {
+			pv := sealed[sym]
+			cond := SymBool{fmt.Sprintf("(and (= %s %s) (= %s %s) (= %s %s))", a.Key, pv.key, bytesE(args[1]), pv.nonce, bytesE(args[3]), pv.aad)}
+			if e.branch(cond) {
+				return Tuple{BytesV{E: pv.pt}, IfaceV{}}
 			}
 		}
 		return Tuple{BytesV{E: `""`, Nil: true}, e.mkErr("cipher: message authentication failed")}
